@@ -349,8 +349,26 @@ def check_case(spec: Dict[str, Any], col: Collector, workroot: str = ".") -> Non
     try:
         for f in spec["files"]:
             write_file(f, d)
-        ref = reference(spec)
-        got = real(spec, d)
+        decoys: List[str] = []
+        if len(_freeze(spec)) % 2 == 0:
+            # a same-named file with other content sits in the process' working directory: relative source paths are
+            # resolved against the directory handed to the expansion (the YAML's directory), never against that one
+            for f in spec["files"]:
+                if not os.path.isabs(f["name"]) and not os.path.exists(os.path.join(os.getcwd(), f["name"])):
+                    decoy = copy.deepcopy(f)
+                    decoy["columns"] = {k: [("decoy" if isinstance(x, str) else 4242.0) for x in v] + [4242.0] for k, v in f["columns"].items()}
+                    decoy.pop("scalar_column", None)
+                    write_file(decoy, os.getcwd())
+                    decoys.append(os.path.join(os.getcwd(), f["name"]))
+        try:
+            ref = reference(spec)
+            got = real(spec, d)
+        finally:
+            for pth in decoys:
+                if os.path.exists(pth):
+                    os.remove(pth)
+        if decoys:
+            col.labels["decoy_source_in_process_cwd"] += 1
         dry = _cli_dry_run(spec, d) if spec.get("entry") == "yaml" and (len(_freeze(spec)) % 7 == 0) else None
     finally:
         shutil.rmtree(d, ignore_errors=True)
